@@ -109,12 +109,15 @@ def find_islands(im, bkg, rms,
     for i in range(n):
         xmin, xmax = f[i][0].start, f[i][0].stop
         ymin, ymax = f[i][1].start, f[i][1].stop
+        # the pixels of this island (and not those of another island that
+        # happens to be within the same bounding box)
+        own = l[xmin:xmax, ymin:ymax] == i + 1
         # obey seed clip constraint
-        if np.any(snr[xmin:xmax, ymin:ymax] > seed_clip):
+        if np.any(snr[xmin:xmax, ymin:ymax][own] > seed_clip):
             # obey region constraint
             if region is not None:
                 # (row, column) indices of the island pixels within the box
-                x, y = np.where(snr[xmin:xmax, ymin:ymax] >= flood_clip)
+                x, y = np.where(own)
                 # wcs wants zero-based (column, row) image coordinates
                 yx = list(zip(y + ymin, x + xmin))
                 ra, dec = wcs.wcs.wcs_pix2world(yx, 0).transpose()
